@@ -6,9 +6,11 @@
 // register(name, fn)).  An extractor re-reads the few places where the code *is a table*
 // with go/ast (stdlib only, no type checking, no build of /repo) and returns the text of
 // one Gen/<File>.v.  The file is written only if its content changed.  If the source no
-// longer has the shape the extractor knows, nothing is written for that name and the exit
-// status is 1 ("translator tie unavailable"): an unrecognised shape is not a finding, a
-// recognised-but-different table is (Proofs/GenAgree*.v stop compiling).
+// longer has the shape the extractor knows, the exit status is 1 ("translator tie
+// unavailable") and the Gen file is replaced by a neutral one that just re-exports the
+// model's own tables (so that a table left behind by a run on another tree state is never
+// compared): an unrecognised shape is not a finding, a recognised-but-different table is
+// (Proofs/GenAgree*.v stop compiling).
 package main
 
 import (
@@ -23,7 +25,11 @@ type extractor func(repo string) (file string, content string, err error)
 
 var extractors = map[string]extractor{}
 
-func register(name string, f extractor) { extractors[name] = f }
+// neutral Gen file per extractor (file name, content), written when the shape is not recognised
+var fallbacks = map[string][2]string{}
+
+func register(name string, f extractor)           { extractors[name] = f }
+func registerFallback(name, file, content string) { fallbacks[name] = [2]string{file, content} }
 
 func main() {
 	repo := flag.String("repo", "/repo", "root of the eino working tree")
@@ -56,6 +62,16 @@ func main() {
 		if err != nil {
 			fmt.Fprintf(os.Stderr, "go2v: %s: source shape not recognised: %v\n", n, err)
 			failed = true
+			if fb, ok := fallbacks[n]; ok {
+				p := filepath.Join(*out, fb[0])
+				if old, rerr := os.ReadFile(p); rerr != nil || string(old) != fb[1] {
+					if werr := os.WriteFile(p, []byte(fb[1]), 0o644); werr != nil {
+						fmt.Fprintln(os.Stderr, "go2v:", werr)
+						os.Exit(2)
+					}
+					fmt.Printf("go2v: %s: wrote neutral %s (tie unavailable)\n", n, fb[0])
+				}
+			}
 			continue
 		}
 		p := filepath.Join(*out, file)
